@@ -6,6 +6,7 @@
 Write Cloud Optimized GeoTIFFs from xarrays.
 """
 from dataclasses import dataclass, field
+from numbers import Integral
 from typing import Any, Dict, Iterator, Literal, Optional, Tuple, Union
 
 import numpy as np
@@ -150,8 +151,8 @@ def adjust_blocksize(block: int, dim: int = 0) -> int:
 
 
 def norm_blocksize(block: Union[int, Tuple[int, int]]) -> Tuple[int, int]:
-    if isinstance(block, int):
-        block = adjust_blocksize(block)
+    if isinstance(block, Integral):  # int, numpy integers
+        block = adjust_blocksize(int(block))
         return (block, block)
 
     b1, b2 = map(adjust_blocksize, block)
@@ -201,8 +202,8 @@ def cog_gbox(
     if nlevels is None:
         if tile is None:
             tile = wh_(256, 256)
-        if isinstance(tile, int):
-            tile = wh_(tile, tile)
+        if isinstance(tile, Integral):  # int, numpy integers
+            tile = wh_(int(tile), int(tile))
         new_shape, _, _ = compute_cog_spec(gbox.shape, tile)
     else:
         pad = 1 << nlevels
